@@ -339,13 +339,24 @@ impl Lowerer<'_> {
 
             let arm_lbl = arm_labels[arm_index];
 
-            // Even if we "forget" to drop the values, we still need to pop
-            // them from the stack.
-            let to_drop = self.stack_slots.pop().unwrap();
-
             if let Some(guard) = &arm.guard {
+                // The temporaries of the guard get their own frame, which
+                // is dropped as soon as the guard has been evaluated.
+                // Otherwise they would belong to the frame around the
+                // match and be dropped on paths that never evaluated this
+                // guard.
+                self.stack_slots.push(Vec::new());
                 let op = self.expr(guard);
                 let op = self.assign_to_var(op, TyRef::BOOL);
+                self.remove_live_variable(&op);
+                let guard_tmps = self.stack_slots.pop().unwrap();
+                for (var, ty) in guard_tmps.into_iter().rev() {
+                    self.emit_drop(Place::new(var, ty), ty);
+                }
+
+                // Even if we "forget" to drop the bindings, we still need
+                // to pop them from the stack.
+                let to_drop = self.stack_slots.pop().unwrap();
 
                 let ident = Identifier::from(format!("guard_{}_drop", i));
                 let intermediate_lbl =
@@ -365,6 +376,9 @@ impl Lowerer<'_> {
 
                 self.emit_jump(next_lbl);
             } else {
+                // Even if we "forget" to drop the bindings, we still need
+                // to pop them from the stack.
+                let _ = self.stack_slots.pop().unwrap();
                 self.emit_jump(arm_lbl);
             }
         }
